@@ -1,10 +1,41 @@
-"""Witness search on the real code, run only after an obligation failed (DESIGN 2.6)."""
+"""Replay of a recorded violation (the native witness search planned in DESIGN 2.6 was not built, DESIGN 11.5).
+
+A Verus obligation has no counterexample to replay: the replay re-runs the check on /repo's current tree and reports whether
+the SAME named obligation still fails.  A Kani violation carries concrete playback values; the replay re-runs that one harness
+(exactly the recorded one) on the real crates."""
+import os
+import subprocess
+
+from .expand import VERIF
 
 
 def search(prop, diag):
-    return dict(found=False, note="no witness search implemented for this function family yet")
+    return dict(found=False, note="Verus gives no counterexample and no native witness search is implemented: no-failing-input-found")
 
 
 def replay(prop, rec):
-    print(f"replay: obligation {rec.get('obligation')} — re-run ./check {prop}")
-    return 0
+    oid = rec.get("obligation")
+    if rec.get("engine") == "kani":
+        from . import kani
+        cmd, rc, out, wall = kani._run([rec["harness"]], extra=["--exact"], timeout=1800, jobs=1)
+        res = [r for r in kani.parse(out) if r["harness"] == rec["harness"]]
+        if res and res[0]["failed"] and res[0]["failed_checks"] > 0:
+            print(f"replay: harness {rec['harness']} still fails on the current tree ({res[0]['failed_checks']} failed checks)")
+            w = rec.get("witness") or {}
+            if w.get("values"):
+                print("recorded counterexample values: " + ", ".join(v["value"] for v in w["values"]))
+            print(f"VIOLATION property={prop} replay={rec.get('_path', '?')}")
+            return 1
+        if res and res[0]["ok"]:
+            print(f"replay: harness {rec['harness']} passes on the current tree")
+            return 0
+        print(f"UNDECIDED property={prop} reason=replay of {rec['harness']} gave no verdict")
+        return 2
+    p = subprocess.run([os.path.join(VERIF, "check"), prop, "--tier", "quick"], capture_output=True, text=True, cwd=VERIF)
+    still = any(ln.startswith("FAILED-OBLIGATION " + str(oid)) for ln in p.stdout.splitlines())
+    if still:
+        print(f"replay: obligation {oid} still fails on the current tree")
+        print(f"VIOLATION property={prop} replay={rec.get('_path', '?')} no-failing-input-found")
+        return 1
+    print(f"replay: obligation {oid} is discharged on the current tree (check exit {p.returncode})")
+    return 0 if p.returncode == 0 else p.returncode
